@@ -49,12 +49,43 @@ def main(argv=None):
         mod.run(ck)
         return core.finish(ck)
     except core.HarnessError as e:
+        r = _library_raised(core, locals().get('ck'), pid, str(e))
+        if r is not None:
+            return r
         print('HARNESS-ERROR %s: %s' % (pid, e))
         return 2
     except Exception:
+        text = traceback.format_exc()
+        r = _library_raised(core, locals().get('ck'), pid, text)
+        if r is not None:
+            return r
         print('HARNESS-ERROR %s (unexpected exception)' % pid)
-        traceback.print_exc()
+        print(text)
         return 2
+
+
+def _library_raised(core, ck, pid, text):
+    """An exception that was raised *inside the library* (innermost frame under $VF_REPO) and that no oracle of the
+    check anticipated is reported as a violation with the traceback as replay information - a library call that blows up
+    where it did not on the reference tree - instead of as a failure of the machinery."""
+    import re
+    if ck is None:
+        return None
+    frames = re.findall(r'File "([^"]+)", line (\d+), in (\S+)', text)
+    if not frames:
+        return None
+    repo = os.path.abspath(core.REPO) + os.sep
+    path, line, func = frames[-1]
+    if not os.path.abspath(path).startswith(repo):
+        return None
+    last = [l for l in text.strip().splitlines() if l.strip()][-1]
+    etype = last.split(':')[0].strip().split('.')[-1]
+    rel = os.path.abspath(path)[len(repo):]
+    ck.violation('uncaught_library_exception:%s:%s:%s' % (etype, rel, func),
+                 'the library raised %s in %s (%s line %s) during a call the check makes on every tree; on the reference '
+                 'tree it does not' % (last[:160], func, rel, line), {'traceback': text[-3000:]})
+    ck.cap('run aborted by an exception raised inside the library')
+    return core.finish(ck)
 
 
 if __name__ == '__main__':
